@@ -10,6 +10,7 @@ Only theorems and examples.
 import VaxisModel.Lemmas.KittyTerm
 import VaxisModel.Lemmas.KittyData
 import VaxisModel.Lemmas.KittyStrict
+import VaxisModel.Lemmas.KittyMixed
 import VaxisModel.Model.ImageTerm
 import VaxisModel.Model.ImageDraw
 
@@ -146,6 +147,28 @@ theorem placement_id_injective :
   rw [← Nat.shiftLeft_add_eq_or_of_lt (by omega : r < 2 ^ 16), ← Nat.shiftLeft_add_eq_or_of_lt (by omega : r' < 2 ^ 16),
     Nat.shiftLeft_eq, Nat.shiftLeft_eq] at he
   omega
+
+open VaxisModel.Lemmas.KittyMixed in
+/-- **Histories that mix kitty and sixel images** (`kitty id`: image `id` was made with `NewKittyGraphic`; a sixel
+    placement's `deleteFn` writes nothing and its `writeTo` writes data the kitty tables ignore — this is what the
+    driver runs against the implementation): for ALL histories in which the kitty placements of every frame are
+    key-functional, the terminal's kitty placement table is at every point exactly the table of the kitty placements of
+    the last rendered frame, whatever sixel images are drawn, moved, dropped or refreshed in between. -/
+theorem terminal_table_mixed (kitty : Nat → Bool) (ops : List WOp) (h : FramesKeyFunK kitty [] ops) :
+    ∀ k, (World.init.runK kitty ops).term.places k = tableOf (kittyOf kitty (World.init.runK kitty ops).ps.last) k :=
+  (runK_inv kitty ops World.init ⟨fun _ => rfl, keyFun_nil⟩ h).1
+
+/-- Non-vacuity: image 1 kitty, image 2 sixel; the sixel placement moves and is dropped, the kitty one is resized in
+    place: the table holds the kitty placement alone, in its new size. -/
+example :
+    let kitty : Nat → Bool := fun id => id == 1
+    let a : Placement := ⟨1, 2, 3, 4, 4⟩
+    let a' : Placement := ⟨1, 2, 3, 2, 2⟩
+    let s : Placement := ⟨2, 9, 9, 3, 3⟩
+    let s' : Placement := ⟨2, 8, 8, 3, 3⟩
+    let w := World.init.runK kitty [.resize 1 true, .draw a, .draw s, .render, .clear, .draw a, .draw s', .render,
+                                    .clear, .resize 1 true, .draw a', .render]
+    w.term.places (key a') = some a' ∧ w.term.places (key s') = none ∧ w.ps.last = [a'] := by decide
 
 /-- **The order of the two loops matters** (what seeded change C20-m6 does): with the write loop before the delete loop
     — same statements, same sets of commands per frame — an image resized in place (drawn again at the same origin with
